@@ -29,11 +29,13 @@ OUTSIDE = 'histories longer than the bound, more than two live parser instances'
 
 _A, _B = leaf_items('A'), leaf_items('B')
 DOCS = [
-    dg.root([_A[0], dg.namespace(['N'], [_A[5], _A[7]]), _A[10]], comment='// d0'),
+    # K.M next to doc 1's N.M: a namespace node must never be shared between parents / parsers
+    dg.root([_A[0], dg.namespace(['N'], [_A[5], _A[7]]), _A[10],
+             dg.namespace(['K'], [dg.namespace(['M'], [_A[7], _A[9]])])], comment='// d0'),
     dg.root([dg.namespace(['N'], [_B[3], dg.namespace(['M'], [_B[5]])]), _B[11], _B[12], _B[9]]),
-    # malformed deep inside nested namespaces: parsing this one fails half-way
-    dg.root([_A[7], dg.namespace(['P', 'Q'], [_A[0], dg.namespace(['R'], [_B[10], {'<class>': 'component',
-                                                                                    'name': dg.sn('Broken')}])])]),
+    # malformed deep inside nested namespaces (a namespace header without a name): parsing fails half-way
+    dg.root([_A[7], dg.namespace(['P', 'Q'], [_A[0], dg.namespace(['R'], [_B[10]]),
+                                              {'<class>': 'namespace', 'elements': [_B[7]]}])]),
 ]
 BYTES = [orjson.dumps(d) for d in DOCS]
 
@@ -52,7 +54,9 @@ import tempfile as _tempfile
 _DOCDIR = _tempfile.mkdtemp(prefix='vf_c16_')
 FILES = []
 for _i, _b in enumerate(BYTES):
-    _path = _os.path.join(_DOCDIR, f'doc{_i}.json')
+    # the same base name in different directories (a cache keyed by base name would mix them up)
+    _os.makedirs(_os.path.join(_DOCDIR, f'dir{_i}'))
+    _path = _os.path.join(_DOCDIR, f'dir{_i}', 'Model.json')
     with open(_path, 'wb') as _fh:
         _fh.write(_b)
     FILES.append(_path)
@@ -86,7 +90,7 @@ def _history(ops: List[int]) -> bool:
                 continue
             expect = FRESH[slot_doc[slot]]
             try:
-                res = slots[slot].process()
+                res = slots[slot].process()       # anything but the documented error escapes = failure
             except DznJsonError as exc:
                 if expect != ('DznJsonError', str(exc)):
                     return False      # differs from parsing that document alone
